@@ -239,6 +239,8 @@ def gen_programs(ops, max_len, sample, seed, full_len):
             continue
         if p and p[-1][0] == "swap":
             continue
+        if sum(o[0] == "concat" for o in p) >= 2 and sum(o[0] == "replace" for o in p) >= 2:
+            continue          # 12 rows with several symbolic columns: beyond the per-skeleton budget
         keep.append(p)
     return keep
 
